@@ -27,122 +27,103 @@ def check(ctx, run):
     prog = ctx.program()
     run.assume("allocations reach FailableMemoryAllocator::alloc_memory once each (routing is C04.R8)")
     run.not_decided.append("which allocations a concrete workload performs; only the per-allocation transition of the designation list is decided")
-    run.rule("R1", "designation kind discipline: in shouldFail the global allocation index is compared only where the designation has no location, and the per-location counter advances only where it has one and the location matches", floor=3)
-    run.rule("R2", "every pending designation sees every allocation: shouldFail updates state, so no path of the walk in alloc_memory leaves before all nodes were evaluated", floor=2)
+    run.rule("R1", "designation kinds (alloc_memory with shouldFail inlined, folded over a heap model of 19 designation lists x 2 allocation numbers against the reference semantics): an index designation fires at its allocation number only, a location designation at the n-th allocation whose file content and line match", floor=30)
+    run.rule("R2", "every pending designation sees every allocation: in the folded walk all per-location counters advance, also behind a designation that fires", floor=10)
     run.rule("R3", "alloc_memory: global counter +1 per call; a fired node is unlinked (prev->next_ = next | head_ = next) and freed once; NULL iff some node fired, else the base allocator's result; checkAllFailedAllocsWereDone fails iff a designation is left; clearFailedAllocs frees all and resets the counter", floor=8)
     run.rule("R4", "countdown folded over the partition {<0, 0, 1, >1}; set_not_out_of_memory restores the saved allocator; cpputest_malloc_location counts down before allocating", floor=8, exhaustive=True)
     run.rule("R5", "strdup/strndup/calloc return NULL when the allocation they rely on fails (no use of the result before a null test)", floor=3)
 
-    # ---------------- R1 ----------------------------------------------------
+    # ---------------- R1 / R2 / R3 --------------------------------------------
+    # alloc_memory with shouldFail inlined, folded over a heap model of the designation list and compared with the
+    # reference semantics of the property: every pending designation sees every allocation; an index designation fires
+    # at its allocation number; a location designation counts the allocations at its (file content, line) and fires
+    # at its n-th; fired designations leave the list and are freed once; NULL iff one fired.
     sf = prog.fn(NODE + "::shouldFail")
-    run.analysed(sf)
-    pn = [p["name"] for p in sf.params]
-    for p in enumerate_paths(sf):
-        val = p.val()
-        loc = val.get("file_")
-        cmp_global = [k for k in val if pn[0] in k and "allocNumberToFail_" in k]
-        ret_global = p.ret is not None and pn[0] in render(sf, sf.node(p.ret.get("value"))) if p.ret is not None and p.ret.get("value") is not None else False
-        inc = [e for e in p.trace if isinstance(e, int) and sf.nodes[e]["k"] == "UnaryOperator" and sf.nodes[e].get("op") == "++" and "actualAllocNumber_" in render(sf, sf.nodes[e])]
-        why = []
-        if (cmp_global or ret_global) and loc is not False:
-            why.append("a designation with a location is compared with the overall allocation number")
-        if inc:
-            same_loc = [v for k, v in val.items() if "StrCmp(" in k] + [v for k, v in val.items() if "line_" in k]
-            if loc is not True:
-                why.append("the per-location counter advances for a designation without location")
-            # StrCmp(...) == 0 normalises to atom StrCmp(...) false
-            if not ([v for k, v in val.items() if "StrCmp(" in k] == [False] and [v for k, v in val.items() if "line_" in k and "==" in k] == [True]):
-                why.append("the per-location counter advances although file/line were not both compared equal")
-            r = render(sf, sf.node(p.ret.get("value"))) if p.ret is not None else ""
-            if "actualAllocNumber_" not in r or "allocNumberToFail_" not in r:
-                why.append("a location designation does not answer with counter == n")
-        if loc is False and not (cmp_global or ret_global):
-            why.append("an index designation is not compared with the allocation number")
-        run.ob("R1", "shouldFail [%s]" % short(p.describe(sf), 110), sf.site, not why, witness=render(sf, sf.node(p.ret.get("value"))) if p.ret is not None and p.ret.get("value") is not None else None, what="; ".join(why))
-    cs = [render(sf, c) for c in sf.calls() if "StrCmp" in render(sf, c)]
-    run.ob("R1", "locations are compared by content (StrCmp of the file names) and line", sf.site, cs in (["SimpleString::StrCmp(%s, file_)" % pn[1]], ["SimpleString::StrCmp(file_, %s)" % pn[1]]), witness=cs,
-           what="" if cs else "file names are not compared with StrCmp: equal names held in different arrays would not match")
-
-    # ---------------- R2 / R3 -----------------------------------------------
     am = prog.fn(FA + "::alloc_memory")
+    run.analysed(sf)
     run.analysed(am)
-    eff = writes_state(prog, sf)
-    loops = loop_blocks(am)
-    head = None
-    for b in am.blocks.values():
-        if b["id"] in loops and b.get("cond") is not None and len(b["succ"]) == 2:
-            key, pol = atom(am, am.nodes[b["cond"]])
-            if key == "current":
-                head = b
-    if head is None:
-        raise AnalysisBroken("designation walk in alloc_memory not found")
-    body = head["succ"][0]
-    its = enumerate_paths(am, start_block=body, end_blocks={head["id"]})
-    leaves = [p for p in its if p.end != "endblock"]
-    ok = (eff is None) or not leaves
-    run.ob("R2", "the walk evaluates every node (the predicate writes %s)" % eff, am.site, ok, witness=[short(p.describe(am), 100) for p in leaves],
-           what="" if ok else "the walk returns as soon as one designation fires: designations behind it do not count this allocation")
-    adv = True
-    for p in its:
-        if p.end != "endblock":
-            continue
-        a = [(l, render(am, r)) for l, r, n in assignments(am, p)]
-        cur = [r for l, r in a if l == "current"]
-        if len(cur) != 1 or cur[0] not in ("current->next_", "next"):
-            adv = False
-    run.ob("R2", "every iteration advances to the node's successor", am.site, adv)
-    for p in its:
-        if p.end != "endblock" and p.end != "return":
-            continue
-        val = p.val()
-        fired = [v for k, v in val.items() if k.startswith("current->shouldFail(")]
-        a = [(l, render(am, r)) for l, r, n in assignments(am, p)]
-        frees = [render(am, c) for c in path_calls(prog, am, p) if (prog.callee_name(am, c) or "").endswith("free_memory")]
-        why = []
-        if len(fired) != 1:
-            why.append("shouldFail evaluated %d times in one iteration" % len(fired))
-        elif fired[0]:
-            prev = val.get("previous")
-            unl = [(l, r) for l, r in a if l in ("previous->next_", "head_")]
-            want = ("previous->next_" if prev else "head_")
-            if len(unl) != 1 or unl[0][0] != want or unl[0][1] not in ("current->next_", "next"):
-                why.append("fired node is not unlinked with %s = its successor (found %s)" % (want, unl))
-            if len(frees) != 1 or "current" not in frees[0]:
-                why.append("fired node freed %d times" % len(frees))
-            if any(l == "previous" for l, r in a):
-                why.append("previous moves onto the removed node")
-        else:
-            if [(l, r) for l, r in a if l in ("previous->next_", "head_")] or frees:
-                why.append("a node that did not fire is unlinked or freed")
-            if ("previous", "current") not in a:
-                why.append("previous does not follow a kept node")
-        args = [render(am, c) for c in path_calls(prog, am, p) if (prog.callee_name(am, c) or "").endswith("shouldFail")]
-        if args and args[0] != "current->shouldFail(currentAllocNumber_, %s, %s)" % (am.params[1]["name"], am.params[2]["name"]):
-            why.append("predicate called as %s" % args[0])
-        run.ob("R3", "walk iteration [%s]" % short(p.describe(am), 90), am.site, not why, witness={"assign": a, "free": frees}, what="; ".join(why))
-    # whole function: counter, result
-    for p in enumerate_paths(am):
-        val = p.val()
-        incs = [e for e in p.trace if isinstance(e, int) and am.nodes[e]["k"] == "UnaryOperator" and am.nodes[e].get("op") == "++" and render(am, am.nodes[e]["c"][0]) == "currentAllocNumber_"]
-        fired = any(v for k, v in val.items() if k.startswith("current->shouldFail("))
-        # iterations are bounded by the enumerator; `fired` is about the iterations explored on this path
-        r = render(am, am.node(p.ret.get("value"))) if p.ret is not None and p.ret.get("value") is not None else None
-        first = [e for e in p.trace if isinstance(e, int) and am.nodes[e]["k"] in ("UnaryOperator", "CXXMemberCallExpr")]
-        why = []
-        if len(incs) != 1:
-            why.append("allocation counter advanced %d times" % len(incs))
-        else:
-            sfc = [e for e in p.trace if isinstance(e, int) and am.nodes[e]["k"] == "CXXMemberCallExpr" and (prog.callee_name(am, am.nodes[e]) or "").endswith("shouldFail")]
-            if sfc and p.trace.index(incs[0]) > p.trace.index(sfc[0]):
-                why.append("the counter is advanced after designations were evaluated")
-        if fired and r != "NULL":
-            why.append("a designation fired but the allocation returns %s" % r)
-        rn = am.strip(am.node(p.ret.get("value"))) if p.ret is not None and p.ret.get("value") is not None else None
-        base_ok = rn is not None and rn["k"] == "CXXMemberCallExpr" and rn.get("callee", {}).get("qn") == "TestMemoryAllocator::alloc_memory" and rn["callee"].get("dispatch") == "direct" \
-            and [render(am, a) for a in am.args(rn)] == [q["name"] for q in am.params]
-        if not fired and not base_ok:
-            why.append("no designation fired but the result is %s (expected the base allocator called with the same arguments)" % r)
-        run.ob("R3", "alloc_memory [%s]" % short(p.describe(am), 90), am.site, not why, witness={"returns": r}, what="; ".join(why))
+    ADDR = [5000, 6000, 7000]
+
+    def fold_alloc(nodes, cur, file, line):
+        """nodes: list of dicts(n, actual, file, line); returns (ret, chain, freed, counters, allocation counter, base calls)"""
+        env = {"currentAllocNumber_": cur, "head_": ADDR[0] if nodes else 0, am.params[0]["name"]: 24, am.params[1]["name"]: ("str", file), am.params[2]["name"]: line}
+        for i_, nd in enumerate(nodes):
+            a_ = ADDR[i_]
+            env.update({"@%d.allocNumberToFail_" % a_: nd["n"], "@%d.actualAllocNumber_" % a_: nd["actual"], "@%d.file_" % a_: ("str", nd["file"]) if nd["file"] is not None else 0,
+                        "@%d.line_" % a_: nd["line"], "@%d.next_" % a_: ADDR[i_ + 1] if i_ + 1 < len(nodes) else 0})
+        freed, base = [], []
+
+        def strcmp(a_, b_):
+            if not (isinstance(a_, tuple) and isinstance(b_, tuple) and a_[0] == b_[0] == "str"):
+                return None
+            return (a_[1] > b_[1]) - (a_[1] < b_[1])
+        ev = Evaluator(prog, am, env=env, calls={"SimpleString::StrCmp": strcmp,
+                                                  "TestMemoryAllocator::free_memory": lambda *a_: (freed.append(a_[0]), 0)[1], FA + "::free_memory": lambda *a_: (freed.append(a_[0]), 0)[1],
+                                                  "TestMemoryAllocator::alloc_memory": lambda *a_: (base.append(a_), 4242)[1]})
+        ev.heap_mode = True
+        ev.inline = {NODE + "::shouldFail"} | {g.qn for g in prog.functions.values() if g.file == am.file and not g.cls and g.d.get("static")}
+        ev.run_blocks(am.entry, max_steps=3000)
+        chain, c = [], ev.env.get("head_")
+        while c and len(chain) < 6:
+            chain.append(c)
+            c = ev.env.get("@%d.next_" % c)
+        counters = [ev.env.get("@%d.actualAllocNumber_" % ADDR[i_]) for i_ in range(len(nodes))]
+        return getattr(ev, "ret", None), chain, freed, counters, ev.env.get("currentAllocNumber_"), base
+
+    def reference(nodes, cur, file, line):
+        c = cur + 1
+        fired, counters = [], []
+        for i_, nd in enumerate(nodes):
+            actual = nd["actual"]
+            if nd["file"] is not None:
+                if nd["file"] == file and nd["line"] == line:
+                    actual += 1
+                    if actual == nd["n"]:
+                        fired.append(i_)
+            elif c == nd["n"]:
+                fired.append(i_)
+            counters.append(actual)
+        chain = [ADDR[i_] for i_ in range(len(nodes)) if i_ not in fired]
+        return (0 if fired else 4242), chain, sorted(ADDR[i_] for i_ in fired), counters, c
+
+    def idx(n):
+        return {"n": n, "actual": 0, "file": None, "line": 0}
+
+    def loc(n, file, line, actual=0):
+        return {"n": n, "actual": actual, "file": file, "line": line}
+    LISTS = [[], [idx(3)], [idx(4)], [loc(1, "a.c", 10)], [loc(2, "a.c", 10)], [loc(2, "a.c", 10, actual=1)], [loc(1, "a.c", 11)], [loc(1, "b.c", 10)], [loc(3, "a.c", 10)],
+             [idx(3), idx(5)], [idx(5), idx(3)], [idx(3), idx(3)], [idx(3), loc(1, "a.c", 10)], [loc(1, "a.c", 10), idx(3)], [loc(2, "a.c", 10), loc(1, "a.c", 10)],
+             [loc(2, "a.c", 10, actual=1), idx(9), loc(2, "a.c", 10)], [idx(9), idx(3), idx(8)], [idx(3), idx(9), idx(3)], [idx(9), loc(3, "a.c", 10, actual=1), idx(3)]]
+    ncase = 0
+    try:
+        for nodes in LISTS:
+            for cur in (2, 7):
+                ncase += 1
+                got = fold_alloc(nodes, cur, "a.c", 10)
+                want = reference(nodes, cur, "a.c", 10)
+                desc = "designations %s, allocation number %d at a.c:10" % ([("#%d" % nd["n"]) if nd["file"] is None else "%d-th at %s:%d (seen %d)" % (nd["n"], nd["file"], nd["line"], nd["actual"]) for nd in nodes], cur + 1)
+                w2 = "" if got[3] == want[3] else "per-location counters end as %s, expected %s: designations behind a firing one (or at another location) miscount this allocation" % (got[3], want[3])
+                fired_got = sorted(got[2])
+                w1 = "" if fired_got == want[2] else "designations fired (freed) %s, expected %s" % (fired_got, want[2])
+                w3 = ""
+                if (got[0], got[1], got[4]) != (want[0], want[1], want[4]) or len(got[2]) != len(set(got[2])) or (want[0] == 4242) != (len(got[5]) == 1):
+                    w3 = "returns %s with list %s, counter %s, base allocator called %d times, frees %s; expected %s, %s, %s" % (got[0], got[1], got[4], len(got[5]), got[2], want[0], want[1], want[4])
+                elif got[5] and got[5][0][-3:] != (24, ("str", "a.c"), 10):
+                    w3 = "the base allocator is called with %s, expected the caller's (size, file, line)" % (got[5][0],)
+                if any(nd["file"] is not None for nd in nodes) or not nodes:
+                    run.ob("R2", "every pending designation sees the allocation: %s" % desc, am.site, not w2, witness={"counters": got[3]}, what=w2)
+                run.ob("R1", "designation kinds: %s" % desc, sf.site, not w1, witness={"fired": fired_got}, what=w1)
+                run.ob("R3", "alloc_memory: %s" % desc, am.site, not w3, witness={"returns": got[0], "list": got[1], "freed": got[2], "counter": got[4]}, what=w3)
+    except Unknown as u:
+        run.broke("C15: alloc_memory cannot be folded over the designation-list model: %s" % u)
+    # file names compared by content: the same text held in two different arrays
+    try:
+        got = fold_alloc([loc(1, "dir/a.c", 10)], 0, "dir/a.c", 10)
+        okc = got[0] == 0
+    except Unknown:
+        okc = False
+    run.ob("R1", "locations are compared by content (a designation for \"dir/a.c\":10 fires for an allocation whose file string is another array with that text)", sf.site, okc,
+           what="" if okc else "file names are not compared by content: equal names held in different arrays would not match")
     chk = prog.fn(FA + "::checkAllFailedAllocsWereDone")
     run.analysed(chk)
     okc = True
